@@ -1965,7 +1965,7 @@ fn eval_let(
             Ok(ty) => ty,
             Err(e) => {
                 return Err((
-                    RestoreValues(vec![]),
+                    RestoreValues(vec![expr_value]),
                     EvalError::Exception(ExceptionInfo {
                         position: hint.position.clone(),
                         message: ErrorMessage(vec![msgtext!("Unbound type in hint: "), Code(e)]),
@@ -4983,8 +4983,13 @@ fn check_param_types(
             let param_ty = match Type::from_hint(param_hint, &env.types, type_bindings) {
                 Ok(ty) => ty,
                 Err(e) => {
+                    let mut saved_values = vec![receiver_value.clone()];
+                    for value in arg_values.iter().rev() {
+                        saved_values.push(value.clone());
+                    }
+
                     return Err((
-                        RestoreValues(vec![]),
+                        RestoreValues(saved_values),
                         EvalError::Exception(ExceptionInfo {
                             position: arg_positions[i].clone(),
                             message: ErrorMessage(vec![
